@@ -127,7 +127,7 @@ Section Hist.
     (match o with OValue _ _ => False | OForceChain _ _ true _ => False | OForceMulti _ _ true _ => False | _ => True end) ->
     step H wd run h o = (h', out) -> w_runlog (h_world h') = w_runlog (h_world h).
   Proof.
-    intros Hk Hs. destruct o as [b|bs|c n|c n d|c ns rc d|c n|cs ns rc d|cf| |sl]; try contradiction; unfold step in Hs.
+    intros Hk Hs. destruct o as [b|bs|c n|c n d|c ns rc d|c n|cs ns rc d|ci ni|cf| |sl]; try contradiction; unfold step in Hs.
     - destruct (build H wd b (w_objs (h_world h)) []) as [[[rc objs] reg]|e]; injection Hs as <- _; reflexivity.
     - destruct (build_multi H wd bs (w_objs (h_world h)) []) as [[[rcs objs] reg]|e]; injection Hs as <- _; reflexivity.
     - destruct (oid_of h c n); injection Hs as <- _; [apply force_obj_runlog|reflexivity].
@@ -146,6 +146,9 @@ Section Hist.
         destruct (forallb (fun n => dhas n c0) ns); rewrite IH; [apply (force_chain_runlog h)|reflexivity]. }
       match type of Hs with (let '(_, _) := ?F in _) = _ => destruct F as [w' g'] eqn:Ef end.
       injection Hs as <- _. simpl. specialize (G cs (h_world h) true). rewrite Ef in G. exact G.
+    - destruct (oid_of h ci ni) as [id|]; [|injection Hs as <- _; reflexivity].
+      destruct (nth_error (w_objs (h_world h)) id) as [ob|]; [|injection Hs as <- _; reflexivity].
+      destruct (cls_of (classes_of_world wd) ob) as [tc|]; injection Hs as <- _; reflexivity.
     - destruct (nth_error (h_chains h) cf) as [ch|]; [|injection Hs as <- _; reflexivity].
       match type of Hs with (let '(_, _) := fold_left ?V ch ?init in _) = _ =>
         assert (G : forall l wa out, w_runlog (fst (fold_left V l (wa, out))) = w_runlog wa) end.
@@ -232,7 +235,7 @@ Section HistSound.
     (forall c n v id, o = OValue c n -> oid_of h c n = Some id -> out = ok v -> Den run objs id v).
   Proof.
     pose proof I as nope_marker.
-    intros Hk Hi Hs. destruct o as [b|bs|c n|c n d|c ns rc d|c n|cs ns rc d|cf| |sl]; try contradiction; unfold step in Hs.
+    intros Hk Hi Hs. destruct o as [b|bs|c n|c n d|c ns rc d|c n|cs ns rc d|ci ni|cf| |sl]; try contradiction; unfold step in Hs.
     - (* value *)
       destruct (oid_of h c n) as [id|] eqn:Eo; [|injection Hs as <- <-; split; [exact Hi|nope]].
       destruct (eval (classes_of_world wd) run (depth h) (h_world h) id) as [w' [v|e]] eqn:Ee.
@@ -261,6 +264,12 @@ Section HistSound.
         destruct (forallb (fun n => dhas n c0) ns); apply IH; [now apply force_chain_inv|exact Hw]. }
       match type of Hs with (let '(_, _) := ?F in _) = _ => destruct F as [w' g'] eqn:Ef end.
       injection Hs as <- <-. split; [|nope]. specialize (G cs (h_world h) true Hi). rewrite Ef in G. exact G.
+    - destruct (oid_of h ci ni) as [id|]; [|injection Hs as <- <-; split; [exact Hi|nope]].
+      destruct (nth_error (w_objs (h_world h)) id) as [ob|]; [|injection Hs as <- <-; split; [exact Hi|nope]].
+      destruct (cls_of (classes_of_world wd) ob) as [tc|]; injection Hs as <- <-; (split; [|nope]); [|exact Hi].
+      simpl. destruct Hi as (Hm & Hst & Ho).
+      destruct (os_mem (state_of (h_world h) id)); repeat split; auto.
+      apply (store_sound_mkdirs ideal (h_world h)). exact Hst.
     - destruct (nth_error (h_chains h) cf) as [ch|]; [|injection Hs as <- <-; split; [exact Hi|nope]].
       match type of Hs with (let '(_, _) := fold_left ?V ch ?init in _) = _ =>
         assert (G : forall l wa out0, InvW wa -> InvW (fst (fold_left V l (wa, out0)))) end.
